@@ -1,5 +1,6 @@
 """C14 - Lanczos / Arnoldi output sizes (structural part)."""
 import ast
+from ..defuse import before as _before
 
 from ..loader import norm, AnalysisError
 from ..affine import Affine
@@ -415,7 +416,7 @@ def linearity_rule(chk, repo, rid, consumers=True):
                       any(norm(s_.value) == f'{v} / {m}' for m in nrm)]
         first_store = [s_ for s_ in fi.node.body if isinstance(s_, ast.Assign) and isinstance(s_.targets[0], ast.Subscript)
                        and norm(s_.value) == v]
-        ok = len(normalised) == 1 and len(first_store) == 1 and normalised[0].lineno < first_store[0].lineno
+        ok = len(normalised) == 1 and len(first_store) == 1 and _before(fi.node, normalised[0], first_store[0])
         chk.ob(rid, where(repo, fi, normalised[0] if normalised else fi.node), f'{fi.name}: the start vector is divided by its '
                f'2-norm before it becomes the first basis vector', ok, '', key=f'{rid}|{q}|normalised')
         n += 1
